@@ -424,10 +424,51 @@ func (h *history) line() string {
 	for i, o := range h.ops {
 		ls[i] = o.line(h.dbl)
 	}
+	// the model with the repaired timed get when the implementation has the repair
 	if h.dbl {
-		return fmt.Sprintf("DQ %d %d %s", h.c1, h.c2, strings.Join(ls, ";"))
+		return fmt.Sprintf("DQ%s %d %d %s", repairSuffix(true), h.c1, h.c2, strings.Join(ls, ";"))
 	}
-	return fmt.Sprintf("Q %d %s", h.c1, strings.Join(ls, ";"))
+	return fmt.Sprintf("Q%s %d %s", repairSuffix(false), h.c1, strings.Join(ls, ";"))
+}
+
+// repairedTimedGet: does GetTimeout hand a nil element out (proposed/C11/fix-KF-nil-element-swallowed.diff)
+// instead of swallowing it?  Probed once per queue type on the implementation.
+var repairProbe [2]int // 0 unknown, 1 old behaviour, 2 repaired
+
+func repairedTimedGet(dbl bool) bool {
+	i := 0
+	if dbl {
+		i = 1
+	}
+	if repairProbe[i] == 0 {
+		repairProbe[i] = 1
+		vh.GuardTimeout(3*time.Second, func() {
+			var v interface{}
+			var sz int
+			if dbl {
+				d := queue.NewRequestDoubleQueue(0, 0)
+				d.Put1(nil)
+				d.Put2(5)
+				v, sz = d.GetTimeout(30), d.Size()
+			} else {
+				q := queue.NewRequestQueue(0)
+				q.Put(nil)
+				q.Put(5)
+				v, sz = q.GetTimeout(30), q.Size()
+			}
+			if v == nil && sz == 1 {
+				repairProbe[i] = 2
+			}
+		})
+	}
+	return repairProbe[i] == 2
+}
+
+func repairSuffix(dbl bool) string {
+	if repairedTimedGet(dbl) {
+		return "F"
+	}
+	return ""
 }
 
 // directProperty evaluates the property on the implementation's own observations of a history,
@@ -669,7 +710,7 @@ func replaySequential(env *vh.Env, rep *vh.Report) bool {
 		if len(c.Ops) == 0 || len(f) < 3 {
 			continue
 		}
-		h := &history{dbl: f[0] == "DQ", stuck: -1}
+		h := &history{dbl: strings.HasPrefix(f[0], "DQ"), stuck: -1}
 		h.c1, _ = strconv.Atoi(f[1])
 		if h.dbl {
 			h.c2, _ = strconv.Atoi(f[2])
@@ -1293,6 +1334,9 @@ func timedArrival(env *vh.Env, rep *vh.Report) {
 		vh.Die("driver: %v", err)
 	}
 	for i, sc := range scens {
+		if sc.name == "nil then an element arrive" && (repairedTimedGet(false) || repairedTimedGet(true)) {
+			continue // with the repair the nil element itself is handed out; timedGetQ models the code as it stands
+		}
 		wantModel := fmt.Sprintf("got %d ", sc.want)
 		if sc.want == 0 {
 			wantModel = "timeout 1001 "
